@@ -134,3 +134,96 @@ def make_source(rng, sid, n, t0, tz_min, mode=None, notation=None, codec=None,
 
 def tz_arg(tz_min):
     return "-t=" + gen.off_str(tz_min)
+
+
+# --------------------------------------------------------------------------
+# boundary-directed text logs (C02, C12, C05)
+
+def aligned_log(rng, B, nmsgs, tz_min=0, notation=None, t0=None, first_inside=True,
+                long_lines=True, cont_classes=("ascii", "bin", "nul", "utf8"), preamble=False, crlf=0.1):
+    """Messages whose line ends / message starts / timestamp fields are steered to
+    offsets k*B-1, k*B, k*B+1, with lines of B-1, B, B+1, 2B+1, 3B+1 bytes mixed in.
+    Returns (preamble_bytes, [Msg]). If first_inside, the first timestamped line
+    ends inside block zero (and for B >= 8096 the first three messages are short)."""
+    notation = notation or rng.choice(["iso_space", "iso_t_us_off", "iso_space_ms_off", "compact"])
+    fn, zoned, digits = gen.NOTATIONS[notation]
+    t = t0 if t0 is not None else gen.instant(2023, rng.randint(1, 12), rng.randint(1, 28), rng.randint(0, 23), rng.randint(0, 59), 0)
+    pre = b""
+    if preamble:
+        for _ in range(rng.randint(1, 3)):
+            pre += gen.filler(rng, rng.randint(0, max(1, min(20, B // 8)))) + b"\n"
+    pos = len(pre)
+    msgs = []
+    for i in range(nmsgs):
+        t += rng.choice([0, 0, 1, 1, 2, 60]) * gen.NS + rng.choice([0, 0, 1000, 500_000_000])
+        ti = gen.trunc(t, digits)
+        off = rng.choice([0, 60, -300, 330]) if zoned else tz_min
+        eol = b"\r\n" if rng.random() < crlf else b"\n"
+        m0 = gen.make_msg(rng, 0, i, ti, notation, off, ncont=0, body_len=0, eol=eol)
+        base = len(m0.data)            # head line with empty body
+        goal = rng.choice(["end-1", "end0", "end+1", "len", "long", "rand", "rand", "next_ts_at_boundary"])
+        early = first_inside and (i == 0 or (B >= 8096 and i < 3))
+        if early:
+            room = B - pos - base - 1
+            body = rng.randint(0, max(0, min(room, 30))) if room > 0 else 0
+        elif goal in ("end-1", "end0", "end+1", "next_ts_at_boundary"):
+            # choose body so that (pos + base + body) % B == r  (offset one past the newline)
+            r = {"end-1": B - 1, "end0": 0, "end+1": 1, "next_ts_at_boundary": 0}[goal] % B
+            body = (r - (pos + base)) % B
+            if long_lines and rng.random() < 0.15:
+                body += B * rng.randint(1, 2)
+        elif goal == "len":
+            want = rng.choice([B - 1, B, B + 1])
+            body = max(0, want - base)
+        elif goal == "long" and long_lines:
+            body = max(0, rng.choice([2 * B + 1, 3 * B + 1, B + B // 2]) - base)
+        else:
+            body = rng.randint(0, 60)
+        body = min(body, 400_000)
+        ncont = rng.choice([0, 0, 0, 1, 2, 4])
+        m = gen.make_msg(rng, 0, i, ti, notation, off, ncont=0, body_len=body, eol=eol)
+        data = m.data
+        for _ in range(ncont):
+            g = rng.choice(["short", "short", "empty", "toboundary", "blocklen"]) if not early else rng.choice(["short", "empty"])
+            if g == "empty":
+                n = 0
+            elif g == "toboundary":
+                n = (rng.choice([B - 1, 0, 1]) - (pos + len(data) + len(eol))) % B
+            elif g == "blocklen":
+                n = rng.choice([B - 1, B, B + 1])
+            else:
+                n = rng.randint(1, 40)
+            data += gen.filler(rng, min(n, 400_000), rng.choice(cont_classes)) + eol
+        m.data = data
+        msgs.append(m)
+        pos += len(data)
+    return pre, msgs
+
+
+def blockzero_class(pre, msgs, B, trailing_newline=True):
+    """Classify a text file against s4's documented-by-code block-zero admission
+    heuristic (syslogprocessor.rs blockzero_analysis_*): returns None if the file
+    is admitted by it, else the name of the known-finding class."""
+    data = pre + gen.log_bytes(msgs, trailing_newline)
+    if not msgs:
+        return None
+    block0 = data[:B]
+    first_ts = len(pre)
+    nl = data.find(b"\n", first_ts)
+    end_first = nl if nl != -1 else len(data) - 1
+    if end_first >= len(block0):
+        return "first-timestamped-line-not-complete-in-block-zero"
+    if len(block0) >= 8096:
+        # needs 3 lines and 2 syslines found inside block zero
+        offs, p = [], len(pre)
+        for m in msgs:
+            offs.append(p)
+            p += len(m.data)
+        # a sysline is 'found' in block zero when the head of the next one (or EOF) lies inside block zero
+        complete = sum(1 for k, o in enumerate(offs)
+                       if (offs[k + 1] if k + 1 < len(offs) else len(data)) <= len(block0) - 1 or
+                       ((offs[k + 1] if k + 1 < len(offs) else len(data)) == len(data) and len(data) <= len(block0)))
+        lines = block0.count(b"\n")
+        if lines < 3 or complete < 2:
+            return "fewer-than-min-lines-or-syslines-in-block-zero-of-8096+"
+    return None
